@@ -10,7 +10,8 @@ SPEC = {
             "(p, p+small, (valid coordinate)+p when it fits, uniform); curve point outside the r-torsion obtained by solving the curve equation with the reference "
             "big-int code (BLS12-381 G1/G2, FourQ) and its pure cofactor component r*P / N*P; point of another curve y^2=x^3+b' (twist / invalid curve); "
             "STRUCTURED VALID encodings built by the reference (coordinates in a proper subfield or with a zero component, 0/+-1/small/2^k/near-p coordinates lifted through the curve equation, torsion and small-order members, +-k*G, both sign bits; a reference-valid one must be accepted); infinity with stray flag or payload bits; unused high bits set; non-canonical sign of x=0; RFC 9496 bad encodings; ML-KEM coefficient in [q,4096); uniformly random}. "
-            "Formats: bls12381 G1/G2 SetBytes (48/96, 96/192 bytes), sign/bls public keys (UnmarshalBinary+Validate) and signatures (through Verify), "
+            "Formats: bls12381 G1/G2 SetBytes (48/96, 96/192 bytes), sign/bls public keys (UnmarshalBinary+Validate), signatures through Verify, and Aggregate / VerifyAggregate as parsers "
+            "(lists of 1 (heavily weighted), 2, 3, 4, 5, 8 signatures with one generated position hostile / non-canonical / structured; success => every input is a member encoding and the output is the canonical compressed sum of the reference), "
             "tkn20 matrixG1/matrixG2 (white-box), goldilocks.FromBytes / Point.UnmarshalBinary (57), fourq.Point.Unmarshal and curve4q.Shared (32), "
             "Ed25519 public keys (white-box pointR1.FromBytes incl. all 38 encodings with y>=p; black-box Verify with forged signatures under low-order keys), "
             "group.P256/P384/P521 and ristretto255 elements, OPRF public keys of the four suites, ML-KEM-512/768/1024 + X25519MLKEM768 + X-Wing encapsulation keys. "
